@@ -83,13 +83,15 @@ func init() {
 	register(&Prop{
 		ID: "C08", Level: "exploration",
 		Gen: func(seed uint64, tier string, idx int) *Scenario { return genC08(mixSeed(seed, uint64(idx))) },
-		Run: func(sc *Scenario, keepLog bool) *RunReport { return runHistory(sc, sharedHistoryOracle, keepLog, false) },
+		Run: func(sc *Scenario, keepLog bool) *RunReport {
+			return runHistory(sc, sharedHistoryOracle, keepLog, false)
+		},
 		QuickRuns: 10000, ThoroughS: 900,
 		Rule: "one run = 1..3 validators built once without recycling (schema / parameter / header) used for a sequence of 2..30 values with repeats, every call under its own map-iteration order, " +
 			"optionally with other (recycling) validations in between; each call is compared with a freshly built validator on that value (same order: full outcome incl. match count and schemata digest; another order: verdict and message sets). " +
 			"non-trivial = some pooled object travelled between calls; distinct = distinct (operation-kind sequence, recycling edges)",
 		Real: commonReal, Stub: commonStub,
-		Assume: []string{"oracle = a freshly built validator executing the call alone with fresh objects", "concurrent sharing of such a validator is covered by C05"},
+		Assume:    []string{"oracle = a freshly built validator executing the call alone with fresh objects", "concurrent sharing of such a validator is covered by C05"},
 		FaultKind: []string{"pool-forced-miss", "pool-drop", "pool-clear", "map-order-permuted"},
 	})
 }
